@@ -202,3 +202,7 @@ impl SwarmDriver {
         }
     }
 }
+
+#[cfg(maidsafe_safe_network_verif)]
+#[path = "../verif/request_response.rs"]
+pub mod verif;
